@@ -28,11 +28,14 @@ def doc_eff_field_size(v):
     return v if v > 0 else DEF_FIELD
 
 
-def first_result(spec, chunks):
-    """('ok', req) or ('err', class name) for the first request of the stream."""
+def first_result(spec, chunks, read_body=False):
+    """('ok', req) or ('err', class name) for the first request of the stream (with read_body: the request counts as
+    handed over only when its body - chunk-size lines and trailer block included - could be read to the end)."""
     from gunicorn.http import RequestParser
     try:
         req = next(RequestParser(lp.real_cfg(spec), iter(chunks), lp.DEFAULT_PEER))
+        if read_body:
+            req.body.read()
         return ("ok", req)
     except StopIteration:
         return ("err", "StopIteration")
@@ -88,6 +91,56 @@ def field_size_cases(thorough=False):
                 forms.append(b"X:\t" + b"v" * 2 + b" " * (n - 5))
             for field in forms:
                 yield lim, n, b"GET / HTTP/1.1\r\n" + field + b"\r\n\r\n"
+
+
+def policy_cases(thorough=False):
+    """the same limits under the other parsing policies and in the trailer block: yields
+    (what, spec, stream, n_fields_or_size, family, read_body) with family 'fields' | 'fsize'"""
+    flagsets = [("folding", dict(permit_obsolete_folding=True)), ("strip-spaces", dict(strip_header_spaces=True)),
+                ("map-refuse", dict(header_map="refuse")), ("map-dangerous", dict(header_map="dangerous")),
+                ("proxy", dict(proxy_protocol=True))]
+    head = b"GET / HTTP/1.1\r\n"
+    for lim in ([1, 3, 7] if not thorough else [1, 2, 3, 4, 7, 20, 100]):
+        for n in (lim - 1, lim, lim + 1):
+            if n < 0:
+                continue
+            for tag, flags in flagsets:
+                spec = lp.make_spec(limit_request_fields=lim, **flags)
+                pre = b"PROXY TCP4 192.168.0.1 192.168.0.11 56324 443\r\n" if tag == "proxy" else b""
+                if tag == "folding":
+                    # every field folded over 1-3 lines: a field is a field however many lines it takes
+                    for k in (2, 3):
+                        hdrs = b"".join(b"H%d: a\r\n" % i + b" b\r\n" * (k - 1) for i in range(n))
+                        yield ("%d fields folded over %d lines each, limit_request_fields=%d" % (n, k, lim), spec, head + hdrs + b"\r\n", n, lim, "fields", False)
+                elif tag == "strip-spaces":
+                    hdrs = b"".join(b"H%d  : v\r\n" % i for i in range(n))
+                    yield ("%d fields with blanks before the colon, limit_request_fields=%d" % (n, lim), spec, head + hdrs + b"\r\n", n, lim, "fields", False)
+                elif tag == "map-dangerous":
+                    hdrs = b"".join(b"H_%d: v\r\n" % i for i in range(n))
+                    yield ("%d underscore fields (header_map=dangerous), limit_request_fields=%d" % (n, lim), spec, head + hdrs + b"\r\n", n, lim, "fields", False)
+                else:
+                    hdrs = b"".join(b"H%d: v\r\n" % i for i in range(n))
+                    yield ("%d fields (%s), limit_request_fields=%d" % (n, tag, lim), spec, pre + head + hdrs + b"\r\n", n, lim, "fields", False)
+            # the trailer block of a chunked body is parsed by the same function under the same limits
+            spec = lp.make_spec(limit_request_fields=lim)
+            tr = b"".join(b"T%d: v\r\n" % i for i in range(n))
+            yield ("%d trailer fields, limit_request_fields=%d" % (n, lim), spec,
+                   head + b"Transfer-Encoding: chunked\r\n\r\n3\r\nabc\r\n0\r\n" + tr + b"\r\n", n, lim, "trailer-fields", True)
+    for lim in ([12, 40] if not thorough else [12, 16, 40, 100, 1000]):
+        for n in (lim - 3, lim - 2, lim, lim + 1, lim + 5):
+            # a folded field of n bytes in all (two lines, each with its CRLF counted by gunicorn)
+            spec = lp.make_spec(limit_request_field_size=lim, permit_obsolete_folding=True)
+            a = max(4, n // 2)
+            l1 = b"X: " + b"v" * (a - 3)
+            l2 = b" " + b"w" * max(0, n - a - 3)           # n = len(l1) + 2 + len(l2) : CRLF of the first line counted
+            total = len(l1) + 2 + len(l2)
+            yield ("folded field of %d bytes, limit_request_field_size=%d" % (total, lim), spec, head + l1 + b"\r\n" + l2 + b"\r\n\r\n", total, lim, "fsize-folded", False)
+            if lim < 30:
+                continue                  # the Transfer-Encoding field of the head itself has 26 bytes
+            spec = lp.make_spec(limit_request_field_size=lim)
+            tr = b"T: " + b"v" * max(1, n - 3)
+            yield ("trailer field of %d bytes, limit_request_field_size=%d" % (len(tr), lim), spec,
+                   head + b"Transfer-Encoding: chunked\r\n\r\n3\r\nabc\r\n0\r\n" + tr + b"\r\n\r\n", len(tr), lim, "trailer-fsize", True)
 
 
 class Meter:
@@ -163,10 +216,10 @@ def run(ctx):
     model_cases = []
     nviol = 0
 
-    def judge(what, spec, stream, must_reject, must_accept, size_errors, key):
+    def judge(what, spec, stream, must_reject, must_accept, size_errors, key, read_body=False):
         nonlocal nviol
         for name, chunks in segs(rng, stream):
-            kind, val = first_result(spec, chunks)
+            kind, val = first_result(spec, chunks, read_body)
             ctx.count_case((key, name, len(stream)), True)
             ctx.hist("verdict", val if kind == "err" else "accepted")
             bad = None
@@ -180,8 +233,9 @@ def run(ctx):
                                     "stream_head": stream[:200].decode("latin-1"), "segmentation": name,
                                     "chunks": [len(c) for c in chunks][:50], "result": [kind, val if kind == "err" else "request"]})
             if len(stream) <= 1500 and name in ("whole", "random", "small"):
-                obs, rec = lp.run_impl(spec, chunks, [[]])
-                model_cases.append((lp.model_expr(spec, chunks, [[]], rec), obs, {"what": what, "spec_key": key, "len": len(stream)}))
+                prog = [[("read", None)]] if read_body else [[]]
+                obs, rec = lp.run_impl(spec, chunks, prog)
+                model_cases.append((lp.model_expr(spec, chunks, prog, rec), obs, {"what": what, "spec_key": key, "len": len(stream)}))
 
     for lim, n, stream in line_cases(not ctx.quick()):
         eff = doc_eff_line(lim)
@@ -207,6 +261,18 @@ def run(ctx):
         judge("header field of %d bytes, limit_request_field_size=%d" % (n, lim), spec, stream,
               must_reject=(eff > 0 and n > eff), must_accept=(eff == 0 or n + 2 <= eff), size_errors=("LimitRequestHeaders",), key=("fsize", lim, n))
         ctx.hist("family", "field-size")
+    # the same limits under the other parsing policies (folding, blanks before the colon, header_map, PROXY line) and in
+    # the trailer block
+    for what, spec, stream, n, lim, fam, rb in policy_cases(not ctx.quick()):
+        if fam in ("fields", "trailer-fields"):
+            judge(what, spec, stream, must_reject=(n > lim), must_accept=(n <= lim), size_errors=("LimitRequestHeaders",),
+                  key=(fam, what), read_body=rb)
+        else:
+            # gunicorn counts the CRLF of every line of the field; both readings accepted in the 2-bytes-per-line window
+            lines = 2 if fam == "fsize-folded" else 1
+            judge(what, spec, stream, must_reject=(n > lim), must_accept=(n + 2 * lines <= lim), size_errors=("LimitRequestHeaders",),
+                  key=(fam, what), read_body=rb)
+        ctx.hist("family", fam)
     # dropped fields (header_map = drop) count as well
     spec = lp.make_spec(limit_request_fields=2)
     judge("4 underscore fields dropped by header_map=drop, limit_request_fields=2", spec,
